@@ -93,6 +93,9 @@ class Check:
                     pol += "+starve"
                 elif (r.spec.get("sched") or {}).get("favor"):
                     pol += "+favor"
+                if (r.spec.get("sched") or {}).get("preempt"):
+                    self.probes["runs_with_preemption_at_loop_heads"] = self.probes.get("runs_with_preemption_at_loop_heads", 0) + 1
+                    self.probes["preempt_yields"] = self.probes.get("preempt_yields", 0) + (r.sites.get("preempt", 0))
                 self.policies[pol] = self.policies.get(pol, 0) + 1
                 for f in r.fired:
                     k = f["kind"] + ":" + f["what"].split(" ")[0]
